@@ -24,6 +24,8 @@ def random_plan(rng, n_nodes, seq_ratio=(1, 4), wmax=8, kinds=None, allow_feedba
         # distinct ClockDriver objects may carry the same name (a reusable sub-block that creates its own 'gclk'; a gated
         # driver called 'clk' like the default one): domains are identified by the driver object, never by its name
         plan['domains'][-1]['drv_name'] = rng.fork(('drvname', di)).choice([f'gclk{di + 1}', f'gclk{di + 1}', 'gclk', 'clk'])
+        # a gated driver may be DERIVED (base=) from the gated driver of an enclosing domain: it is still governed by its own enable only
+        plan['domains'][-1]['base_parent'] = rng.fork(('base', di)).chance(1, 2)
     nodes = plan['nodes']
     comb = [k for k in COMB if (kinds is None or k in kinds)]
     if kinds is not None and 'AsynchronousMemory' in kinds:
@@ -186,7 +188,15 @@ def build(plan, inst_order=None, wire_order=None, sysname=None, into=None, leaf_
     for di, dm in enumerate(plan.get('domains', [])[1:], 1):
         c = py4hw.Logic(conts[dm['parent']], f'dom{di}')
         if dm['gated']:
-            c.clockDriver = py4hw.ClockDriver(dm.get('drv_name', f'gclk{di}'), base=top.clockDriver, enable=W[tuple(dm['enable'])])
+            base = top.clockDriver
+            if dm.get('base_parent'):
+                o_ = conts[dm['parent']]
+                while o_ is not None and getattr(o_, 'clockDriver', None) is None:
+                    o_ = getattr(o_, 'parent', None)
+                if o_ is not None:
+                    base = o_.clockDriver
+            c.clockDriver = py4hw.ClockDriver(dm.get('drv_name', f'gclk{di}'), base=base, enable=W[tuple(dm['enable'])])
+            c.clockDriver._verif_enable = W[tuple(dm['enable'])]      # the enable the design ASKED for (oracles never trust the attribute)
         conts.append(c)
     for pos_, j in enumerate(order):
         if pause_after is not None and pos_ == pause_after and on_pause is not None:
@@ -245,6 +255,7 @@ def build(plan, inst_order=None, wire_order=None, sysname=None, into=None, leaf_
             raise Exception('unknown kind ' + k)
         if nd.get('own_driver') is not None:
             leaves[j].clockDriver = py4hw.ClockDriver(f'lclk{j}', base=top.clockDriver, enable=W[tuple(nd['own_driver'])])
+            leaves[j].clockDriver._verif_enable = W[tuple(nd['own_driver'])]
     inputs = [W[('in', i)] for i in range(len(plan['inputs']))]
     sysobj = top
     sysobj._containers = conts
